@@ -55,7 +55,7 @@ def _case(draw, gs):
 
 def strategy(tier):
     return st.one_of(
-        _case(gen.admgs(2, 6)),
+        _case(gen.with_odd_names(gen.admgs(2, 6), 6)),
         _case(gen.admgs(3, 6, bi_densities=(2, 3, 5), di_densities=(3, 5, 7))),
         _case(gen.embedded_admgs(2)),
     )
